@@ -125,11 +125,62 @@ impl Prop for TypeChecks {
     }
 }
 
+// ------------------------------------------------------------ name clashes
+
+/// Programs in which names collide; whatever pyxis accepts must still type-check.
+pub struct NameClashes;
+
+impl Prop for NameClashes {
+    type Case = Case;
+    crate::prog_shrink!();
+    fn name(&self) -> String {
+        "C13/name-clashes".into()
+    }
+    fn rule(&self) -> String {
+        "small programs from the rich generator with one or two name-clash perturbations: a second function of the same name in one impl block (same signature or an overload), a derived type re-declaring an inherited impl/virtual function with its own address, two fields / enum cases / parameters / virtual functions of one name in one item, and a field, impl function, virtual function, case, parameter or extern value renamed to a name already used elsewhere in the program or generated by the backend (vftable, get, as_ref, _vfunc_N, _field_N, <T>Vftable, get_<extern>, <field>_<name>, ...). The reference model is not consulted: when pyxis rejects, the case is discarded; when it accepts, every output file must parse and the crate must type-check (as in C13/type-checks). Non-trivial: pyxis accepted a perturbed program".into()
+    }
+    fn gen(&self, t: &mut Tape) -> Case {
+        let w = if t.chance(1, 2) { 8 } else { 4 };
+        let mut cfg = crate::genprog::GenCfg::rich(w);
+        cfg.max_items = 2 + t.below(6);
+        cfg.max_fields = 1 + t.below(5);
+        cfg.max_mods = 2;
+        cfg.backends = false;
+        cfg.vft_num = 2;
+        cfg.base_num = 2;
+        cfg.clashes = 1;
+        let (prog, _, _) = crate::genprog::gen_prog(t, cfg);
+        Case { prog, w }
+    }
+    fn judge(&self, c: &Case) -> Outcome {
+        let run = match run_l2(&c.prog, c.w, Which::Compile) {
+            Ok(r) => r,
+            Err(o) => return o,
+        };
+        for (p, text) in &run.built.files {
+            if let Err(e) = syn::parse_file(text) {
+                return Outcome::fail("output-not-rust", format!("{p}: {e}"));
+            }
+        }
+        if !run.out.errors.is_empty() {
+            let mut codes: Vec<String> = run.out.errors.iter().map(|d| d.code.clone()).collect();
+            codes.sort();
+            codes.dedup();
+            return Outcome::fail(&format!("rustc-error:{}", codes.join("+")), format!("width {}:\n{}", c.w, diag_summary(&run.out.errors)));
+        }
+        Outcome::pass(true).class(&format!("checked-width:{}", c.w))
+    }
+    fn show(&self, c: &Case) -> Value {
+        show_case(c)
+    }
+}
+
 pub fn props() -> Vec<Box<dyn DynProp>> {
-    vec![Box::new(TypeChecks)]
+    vec![Box::new(TypeChecks), Box::new(NameClashes)]
 }
 
 pub fn run(ctx: &mut Ctx) {
     let q = ctx.quick();
     ctx.run(&TypeChecks, &Params::new(if q { 4000 } else { 120_000 }, 200, 3000).shrink(150));
+    ctx.run(&NameClashes, &Params::new(if q { 4000 } else { 120_000 }, 100, 1200).shrink(150));
 }
